@@ -518,10 +518,22 @@ class DocumentationAggregator(CMakeListener):
         :param docstring: Cleaned docstring.
         """
 
-        args = ctx.single_argument() + ctx.compound_argument()
-        args = [val.getText() for val in args]
+        args = [self.argument_text(val) for val in ctx.getChildren(
+            lambda c: isinstance(c, (CMakeParser.Single_argumentContext, CMakeParser.Compound_argumentContext)))]
         self.documented.append(GenericCommandDocumentation(
             command_name, docstring, args))
+
+    @staticmethod
+    def argument_text(arg: ParserRuleContext) -> str:
+        """
+        Text of a command argument as written. Parenthesized (compound)
+        arguments keep their nested arguments in order, separated by single spaces.
+        """
+        if isinstance(arg, CMakeParser.Compound_argumentContext):
+            inner = [DocumentationAggregator.argument_text(c) for c in arg.getChildren(
+                lambda c: isinstance(c, (CMakeParser.Single_argumentContext, CMakeParser.Compound_argumentContext)))]
+            return "(" + " ".join(inner) + ")"
+        return arg.getText()
 
     @staticmethod
     def clean_doc_lines(lines: List[str]) -> str:
